@@ -82,6 +82,8 @@ G(t, m) == [t |-> t, m |-> m]
 Box(x, y, w) == << <<x, y>>, <<x + w, y>>, <<x + w, y + w>>, <<x, y + w>>, <<x, y>> >>          \* closed, two left-most vertices tie on x
 TriC(x, y, w) == << <<x, y>>, <<x + w, y + 30>>, <<x + 40, y + w>>, <<x, y>> >>
 OpenRing(x, y, w) == << <<x, y>>, <<x + w, y>>, <<x + w, y + w>> >>                              \* an unclosed ring
+BowTie(x, y, w) == << <<x, y>>, <<x + w, y + w>>, <<x + w, y>>, <<x, y + w>>, <<x, y>> >>
+Sliver(x, y, w) == << <<x, y>>, <<x + 2 * w, y>>, <<x + w, y>>, <<x, y>> >>
 L1 == << <<0, 0>>, <<100, 50>>, <<200, 0>> >>
 L2 == << <<1000, 0>>, <<1100, 70>> >>
 L3 == << <<0, 1000>>, <<300, 1300>>, <<100, 1500>>, <<0, 1200>> >>
@@ -94,7 +96,11 @@ Bases == { G("Point", <<50, 60>>), G("MultiPoint", L1), G("LineString", L3), G("
                                       G("GeometryCollection", << G("MultiPoint", L1), G("Point", <<5000, 5000>>) >>) >>),
            G("MultiLineString", <<>>), G("Polygon", <<>>), G("GeometryCollection", <<>>),
            (* closed lines: a line string is compared position by position even when its last vertex repeats the first *)
-           G("LineString", Box(0, 7000, 300)), G("MultiLineString", <<Box(0, 8000, 300), L2>>), G("MultiPoint", Box(0, 9000, 300)) }
+           G("LineString", Box(0, 7000, 300)), G("MultiLineString", <<Box(0, 8000, 300), L2>>), G("MultiPoint", Box(0, 9000, 300)),
+           (* closed rings that enclose nothing (a symmetric bow-tie, a ring folded onto a line): every derived quantity of
+              such a ring - its area, its winding direction - is decided by perturbations far below the tolerance *)
+           G("Polygon", <<BowTie(0, 11000, 200)>>), G("Polygon", <<Sliver(0, 12000, 100), Box(1000, 12000, 100)>>),
+           G("MultiPolygon", << <<BowTie(0, 13000, 200)>>, <<Box(1000, 13000, 100), Sliver(1010, 13050, 30)>> >>) }
 
 (* vertex-wise maps (depend on the vertex value only, so a closing vertex moves with its twin); a map is named
    by a record: [k |-> "jig", s] moves every coordinate by < Tol, [k |-> "disp", target, dx, dy] moves one vertex,
